@@ -37,16 +37,18 @@ theorem every_site_in_table (s : Site) (t : String × String × String) (h : s.s
   | step k s ih => exact ih h
   | _ => (simp only [Site.source] at h; cases h; decide)
 
-/-- `check_for_celevalerror` looks at map keys, map values and the items of lists and tuples,
-    and each of the three evaluators scans what celpy returned inside a `try` with a catch-all,
-    every handler answers PermFail, and no handler calls celpy's `tree_dump` unguarded (F10: it
-    raises for some trees, and an exception raised inside one `except` arm escapes) -/
+/-- probed on the tree under test: `check_for_celevalerror` finds an error object exactly where the
+    model's `scan` does (as map value, map key, list / ListType / tuple item, nested, clean values),
+    and each of the three evaluators answers a raising program (CELEvalError with or without a
+    dumpable tree — F10 —, ValueError, KeyError, RuntimeError), an error value and a nested error
+    object with a PermFail that names the location, exactly as `site` / `evalPredicates` /
+    `evalOverlay` do.  The syntactic scan, where it recognises the source's shape, does not
+    contradict: a catch-all exists and celpy's `tree_dump` is not reachable unguarded from an except-arm -/
 theorem scan_shape_matches_source :
-    Koreo.Gen.EvalSites.scanChecksKeys = true ∧ Koreo.Gen.EvalSites.scanChecksValues = true ∧
-    Koreo.Gen.EvalSites.scanChecksItems = true ∧
-    Koreo.Gen.EvalSites.scanMapClasses = ["MapType", "dict"] ∧
-    Koreo.Gen.EvalSites.scanListClasses = ["ListType", "list", "tuple"] ∧
-    Koreo.Gen.EvalSites.evaluatorsGuarded = true := by decide
+    Koreo.Gen.EvalSites.scanProbe = scanProbeTable ∧
+    Koreo.Gen.EvalSites.evaluatorProbe = evaluatorProbeTable ∧
+    Koreo.Gen.EvalSites.catchAll ≠ "no" ∧
+    Koreo.Gen.EvalSites.handlersCannotRaise ≠ "no" := by decide
 
 /-! ## the scan is complete -/
 
